@@ -605,13 +605,24 @@ def glue_sessions(env, aiocoap, tcp, rep):
                     bad = True
             if bad:
                 continue
+            if client and rng.random() < 0.4:
+                # two requests to a not yet connected host were started at the same time: each opened a connection,
+                # the pool now names the later one (TCPClient._spawn_protocol stores after its await) -- this
+                # connection lives on outside the pool, and its requests still have to hear about its end
+                rep.count("G:connection-not-in-pool")
+                other = tcp.TcpConnection(pool, sim._LOG, None, is_server=False)
+                for k in list(pool._pool):
+                    pool._pool[k] = other
             # answer one of them, then Release or Abort (possibly cut in two chunks)
             answered = rng.randrange(nreq)
             resp = o_frame(69, pipes[answered][0].token, b"\xffok")
             fin = o_frame(rng.choice([228, 229]), b"", b"")
-            stream = resp + fin
+            plain_loss = rng.random() < 0.2         # no Release/Abort: the connection just breaks
+            stream = resp + (b"" if plain_loss else fin)
             cut = rng.randrange(1, len(stream))
             escaped = None
+            if plain_loss:
+                rep.count("G:plain-connection-loss")
             for ch in (stream[:cut], stream[cut:]):
                 if not transport.closed:
                     try:
@@ -625,6 +636,9 @@ def glue_sessions(env, aiocoap, tcp, rep):
                 continue
             if transport.closed:
                 conn.connection_lost(None)
+            elif plain_loss:
+                transport.closed = True
+                conn.connection_lost(rng.choice([None, ConnectionResetError("reset by peer")]))
         for idx, (msg, got) in enumerate(pipes):
             if idx == answered:
                 if not (len(got) == 1 and got[0].message is not None and got[0].message.payload == b"ok"):
